@@ -219,7 +219,7 @@ NOT_YET = "check not built yet in this revision of /verif (work in progress; see
 def main():
     try:
         hooks = subprocess.check_output(
-            ["git", "-C", "/repo", "log", "--format=%H", "--grep=^verif hooks"], text=True).split()
+            ["git", "-C", "/repo", "log", "--format=%H", "--grep=^verif"], text=True).split()
     except Exception:
         hooks = []
     checks = []
